@@ -16,15 +16,15 @@
 from __future__ import annotations
 
 import json
+import os
 import random
+import time as _time
 from concurrent.futures import ThreadPoolExecutor
 
 from .. import tlc
 from ..common import Check, load_known
 from ..probe import quiet_logging
 from . import c17_world as W
-
-import os
 
 SPEC = tlc.SPECS / "repl"
 PROP = "C17"
@@ -571,7 +571,6 @@ def run(tier, seed, replay=None):
     if replay:
         return run_replay(chk, replay, code_dev)
 
-    import time as _time
     quick = tier == "quick"
     par = 5
     workers = max(2, tlc.DEFAULT_WORKERS // par)
@@ -598,7 +597,6 @@ def run(tier, seed, replay=None):
         return tid, w
 
     batch = 10 ** 9 if quick else 5000
-    state = {"n": 0}
 
     def flush(force=False):
         """Validate the accumulated executions (thorough tier: in batches, to bound memory)."""
@@ -606,7 +604,6 @@ def run(tier, seed, replay=None):
             if not chk.samples:
                 sample_evidence(chk, traces, meta)
             judge(chk, traces, meta, code_dev)
-            state["n"] += len(traces)
             for tr in traces:
                 meta.pop(tr["id"], None)
             traces.clear()
